@@ -290,6 +290,7 @@ impl Scenario for LinkSc {
             let mach = if m == 0 { mach.with(Ender) } else { mach };
             machines.push(mach.arc());
         }
+        sched::register_machines(&machines);
         let _ = sched::block_on_paused_send(async move {
             sched::start_clock();
             elvis_core::run_internet_with_timeout(&machines, Duration::from_secs(900)).await
